@@ -55,8 +55,9 @@ def _shape_origin(fn, o, depth, _seen):
         return "a%d%s" % (o[1], suffix)
     if kind == "local":
         l = o[1]
-        nm = fn.names.get(l)
-        return "v:%s%s" % (nm if nm else fn.locals[l].rsplit("::", 1)[-1], suffix)
+        # a multiply-defined local is identified by its type, not by its debug name: renaming a variable must not
+        # change a key
+        return "v:%s%s" % (fn.locals[l].rsplit("::", 1)[-1], suffix)
     if kind == "call":
         t = o[1]
         name = short_path(callee(t) or "?")
